@@ -40,6 +40,10 @@ pub struct GenOpts {
     /// calls: a Branch to a constant address in the middle of a block, behind which the block goes on (the callee
     /// returns to the next instruction having changed whatever it liked)
     pub calls: bool,
+    /// placeholder nops (Nop { placeholder: Some(op) }) wrapping assignments and loads: they execute as nops
+    pub placeholders: bool,
+    /// guards wider than one bit (only with broken_guards): an edge is taken when its guard evaluates to one
+    pub wide_guards: bool,
 }
 
 impl Default for GenOpts {
@@ -67,6 +71,8 @@ impl Default for GenOpts {
             empty_entry: true,
             unordered_indices: true,
             calls: false,
+            placeholders: true,
+            wide_guards: false,
         }
     }
 }
@@ -345,7 +351,7 @@ pub fn generate(rng: &mut Rng, o: &GenOpts) -> Gen {
                         }
                         11 => {
                             // non-affine updates: alignment (and sp, -16), constants, negation, scaling; nested affine
-                            match rng.below(8) {
+                            match rng.below(10) {
                                 // a displacement chosen by a register: sp - ite(c, 8, 16) (constant arms, non-constant condition),
                                 // and one chosen by a constant condition (which is an ordinary constant displacement)
                                 6 => {
@@ -356,6 +362,14 @@ pub fn generate(rng: &mut Rng, o: &GenOpts) -> Gen {
                                     };
                                     let d = Expression::Ite(Box::new(c), Box::new(cst(8, w)), Box::new(cst(16, w)));
                                     block.assign(sp.clone(), Expression::Sub(Box::new(spe), Box::new(d)))
+                                }
+                                8 | 9 if w >= 16 => {
+                                    // a write of the low half only, as "lea esp,[rsp-8]" / "add wsp,wsp,#16" are lifted:
+                                    // sp = zext.w(trun.w/2(sp - k)) clears the upper half
+                                    let inner = Expression::Sub(Box::new(spe), Box::new(cst(rng.below(9) * 4, w)));
+                                    let half = Expression::Trun(w / 2, Box::new(inner));
+                                    let e = if rng.bool() { Expression::Zext(w, Box::new(half)) } else { Expression::Sext(w, Box::new(half)) };
+                                    block.assign(sp.clone(), e)
                                 }
                                 7 => {
                                     let d = Expression::Ite(Box::new(cst(rng.below(2), 1)), Box::new(cst(8, w)), Box::new(cst(16, w)));
@@ -436,6 +450,11 @@ pub fn generate(rng: &mut Rng, o: &GenOpts) -> Gen {
                     let idx = block.instructions().last().unwrap().index();
                     branch_targets_needed.push((bi, idx));
                 }
+                16 if o.placeholders && rng.chance(1, 3) => {
+                    // executes as a nop; what it wraps must not count as a definition or a use
+                    let e = gen_expr(rng, w, 1, &pool, false);
+                    block.placeholder(il::Operation::assign(dst, e));
+                }
                 16 if o.calls && ninstr > 0 && rng.bool() => block.branch(cst(0xc0de_0000 + 16 * rng.below(4), 64)),
                 16 => block.nop(),
                 _ => {
@@ -513,6 +532,15 @@ pub fn generate(rng: &mut Rng, o: &GenOpts) -> Gen {
                     cfg.unconditional_edge(perm[h], perm[ts[0]]).unwrap();
                 }
             }
+            2 if o.broken_guards && o.wide_guards && rng.chance(1, 3) => {
+                // guards of 2 or 8 bits whose values range over 0..3: only the value one enables an edge
+                let ss: Vec<&Scalar> = pool.iter().filter(|s| s.bits() >= 8 && s.bits() <= 64).collect();
+                let x = Expression::Scalar(ss[rng.usize(ss.len())].clone());
+                let w = match &x { Expression::Scalar(s) => s.bits(), _ => 8 };
+                let field = |sh: u64| Expression::And(Box::new(Expression::Shr(Box::new(x.clone()), Box::new(cst(sh, w)))), Box::new(cst(3, w)));
+                cfg.conditional_edge(perm[h], perm[ts[0]], field(0)).unwrap();
+                cfg.conditional_edge(perm[h], perm[ts[1]], field(rng.below(3))).unwrap();
+            }
             2 => {
                 let c = gen_cond(rng, &pool);
                 let nc = if o.broken_guards && rng.chance(1, 3) { gen_cond(rng, &pool) } else { not1(&c) };
@@ -528,6 +556,15 @@ pub fn generate(rng: &mut Rng, o: &GenOpts) -> Gen {
                     let c = Expression::Scalar(s);
                     cfg.conditional_edge(perm[h], perm[ts[0]], c.clone()).unwrap();
                     cfg.conditional_edge(perm[h], perm[ts[1]], not1(&c)).unwrap();
+                } else if rng.chance(1, 3) {
+                    // a / !a & b / !a & !b: a partition whose guards read different sets of scalars
+                    let a = gen_cond(rng, &pool);
+                    let b = gen_cond(rng, &pool);
+                    let na = not1(&a);
+                    let nb = not1(&b);
+                    cfg.conditional_edge(perm[h], perm[ts[0]], a).unwrap();
+                    cfg.conditional_edge(perm[h], perm[ts[1]], Expression::And(Box::new(na.clone()), Box::new(b))).unwrap();
+                    cfg.conditional_edge(perm[h], perm[ts[2]], Expression::And(Box::new(na), Box::new(nb))).unwrap();
                 } else {
                     let k = Expression::Constant(Constant::new_big(rng.corner_big(w), w));
                     let x = Expression::Scalar(s);
